@@ -103,6 +103,9 @@ CONFIGS = [
     cfg("expr_q", [["build"], ["expr_build"], ["malform", "obs_parse", "codec"], ["obs_parse"]],
         atoms=("a1",), nreg=1, maxsize=30, maxt=1, inv=("WellFormedInv",), props=("C18Prop",),
         shapes="{Leaf(V(\"a1\")), KV(1), Wrap(Leaf(V(\"a1\")))} \\cup {e \\in Sh(%s, 5) : IsNode(e)} \\cup {Elided(H(<<\"cbor\", V(\"a1\")>>, {})), Assn(KV(1), Leaf(V(\"a1\")))} \\cup NodeSubjectNodes({Leaf(V(\"a1\"))}, 9) \\cup Decorated({Leaf(V(\"a1\"))})" % (B1,)),
+    # deep random histories (TLC simulation mode): every family at every step
+    cfg("deep_s", [ALLMUT + ["salt", "signature", "types", "lookup"]] * 10, nreg=2, maxsize=14, maxt=1,
+        inv=("WellFormedInv",), props=("C02Prop", "C03Prop", "C07Prop", "C13Prop", "C08Prop")),
     # an assertion and its obscured twin
     cfg("twin_q", [["build"], ["navigate"], ["elideone", "compressone", "navigate"], ["assertions"]], maxsize=9, maxt=1,
         shapes="{e \\in ShUpTo(%s, 5) : IsNode(e)}" % B2),
